@@ -17,10 +17,7 @@ CORPUS = os.path.join(common.ROOT, "corpus", "C16")
 
 # ----------------------------------------------------------------------------- known-finding classes (decidable)
 def known_class(p, o):
-    """the Known_* class of an occurrence, mirrored by the predicates of props/C16.v over the same data"""
-    dead = {d.name for d in p.defs if not d.assembled and d.kind != "param"}
-    if any(seg in dead for seg in (o.path or [o.text])):
-        return "Known_greedy_untaken_definition"
+    """no known finding is left for C16 (Known_greedy_untaken_definition was repaired in 41281c3)"""
     return None
 
 
